@@ -265,7 +265,7 @@ func ParseContractText(path, pkgPath, src string) (*ContractFile, error) {
 				return nil, errf("loop ordinal: %v", err)
 			}
 			cl.Kind = f[1]
-			if cl.Kind != "invariant" && cl.Kind != "decreases" {
+			if cl.Kind != "invariant" && cl.Kind != "decreases" && cl.Kind != "step" {
 				return nil, errf("loop clause kind %q", cl.Kind)
 			}
 			body := strings.TrimSpace(strings.TrimPrefix(strings.TrimSpace(strings.TrimPrefix(rest, f[0])), f[1]))
